@@ -40,7 +40,8 @@ SPEC = {
     "prop": "C12",
     "lean_targets": ["InfernoVerif.Props.C12", "InfernoVerif.Model.Persist", "InfernoVerif.Drv.Proto",
                      "InfernoVerif.Gen.Prelude"],
-    "prop_files": ["InfernoVerif/Props/C12.lean"],
+    # the axiom-free generic theorems live in C12Core, audited last
+    "prop_files": ["InfernoVerif/Props/C12.lean", "InfernoVerif/Props/C12Core.lean"],
     "lemma_files": ["InfernoVerif/Lemmas/Persist.lean"],
     "model_files": ["InfernoVerif/Model/Persist.lean", "InfernoVerif/Model/RingOps.lean", "InfernoVerif/Model/Ring.lean"],
     "driver_targets": ["InfernoVerif.Model.Persist", "InfernoVerif.Drv.Proto", "InfernoVerif.Gen.Prelude"],
@@ -50,6 +51,8 @@ SPEC = {
         "(record, fold reducer) — that the real step functions read nothing else is established by the real resume runs, not in Lean",
         "source and target have the same configuration (constructor arguments incl. dtype); load_state_dict's copy_ then performs no conversion",
         "UninitializedBuffer storage is not checkpointed (state_dict of such a module is outside the modelled domain)",
+        "the state of a target AFTER a rejected load is not modelled (torch loads non-atomically: extras and matching tensors are "
+        "already copied when the RuntimeError is raised); a rejected load ends the comparison for that target",
         "state dicts are serialised (torch.save) at the checkpoint; a live state_dict() aliases the module's tensors and its _extras dict",
         "checkpoints are taken between simulation steps (after update()); checkpoints between trainer() and update() (pending accumulator "
         "parts) are exercised separately: they load only into a target with the same number of pending parts",
@@ -185,6 +188,7 @@ class RealMachines:
     def __init__(self):
         self.m = {}
         self.ck = None
+        self.poisoned = set()    # targets of a rejected load: partially loaded by torch, outside the model
 
     def exec(self, line):
         tok = line.split()
@@ -211,6 +215,8 @@ class RealMachines:
                 assert red.data_.recordsz == n
                 self.m[mid] = ("reducer", red)
             return "ok"
+        if tok[0] != "load" and tok[1] in self.poisoned:
+            return "after-failed-load"
         if tok[0] == "save":
             self.ck = ser(self.m[tok[1]][1].state_dict())
             return "ok"
@@ -220,6 +226,7 @@ class RealMachines:
             except RuntimeError as e:
                 if "Error(s) in loading state_dict" not in str(e):
                     raise
+                self.poisoned.add(tok[1])
                 return parse_load_error(str(e))
             return "ok"
         kind, obj = self.m[tok[1]]
